@@ -11,7 +11,7 @@ from hypothesis import strategies as st
 
 from .dsl import QUERY_KINDS
 
-CACHES = ['cache.gz', 'cache.gz', 'cache.gz', 'cache.gz', 'cd/cache.gz', 'cd/e/cache.gz', 'c/cache.gz', 'b/cache.gz']
+CACHES = ['cache.gz', 'cache.gz', 'cache.gz', 'cache.gz', 'cd/cache.gz', 'cd/e/cache.gz', 'c/cache.gz', 'b/cache.gz', 'a/b/cache.gz']
 
 
 def make_universe(names=('a', 'b'), depth=3, extra=('c', 'c/a', 'ab', 'ab/a', 'ab/b', 'a/ba')):
